@@ -33,6 +33,29 @@
  * untyped byte object, which exhausts memory on symbolic-size arrays of structs.  Assumed
  * contract: may fail (old block untouched); otherwise a new block of the requested size with
  * ARBITRARY contents (superset of "old contents preserved") and the old block is freed. */
+#ifdef CQV_GENERIC_REALLOC
+/* create jobs (bounded, concrete indices): add_column_internal grows columns / column_values_written;
+ * an untyped block is fine there */
+void *realloc(void *ptr, size_t size) {
+  __CPROVER_precondition(size != 0 && size <= CQV_MAXBUF, "realloc: sane size");
+  if (nondet_bool()) return NULL;
+  void *res = malloc(size);
+  __CPROVER_assume(res != NULL);
+  if (ptr != NULL) free(ptr);
+  return res;
+}
+char *strdup(const char *str) {
+  __CPROVER_precondition(str != NULL && __CPROVER_r_ok(str, 1), "strdup: source string readable");
+  if (nondet_bool()) return NULL;
+  size_t n = nondet_size_t();
+  __CPROVER_assume(n >= 1 && n <= CQV_MAXBUF);
+  char *p = malloc(n);
+  __CPROVER_assume(p != NULL);
+  p[n - 1] = 0;
+  return p;
+}
+#include "src/core/error.c"        /* the real carquet_error_set (vsnprintf is the stub) */
+#else
 void *realloc(void *ptr, size_t size) {
   __CPROVER_precondition(size != 0 && size % sizeof(row_group_info_t) == 0, "realloc: whole row_group_info_t elements");
   if (nondet_bool()) return NULL;
@@ -42,6 +65,7 @@ void *realloc(void *ptr, size_t size) {
   if (ptr != NULL) free(ptr);
   return res;
 }
+#endif
 
 /* ---- assumed contract: row-group writer (src/writer/row_group_writer.c) ---------------- */
 carquet_row_group_writer_t *G_rg;   /* the live row-group writer handle, if any */
@@ -407,3 +431,110 @@ void h_abort(void) {
   }
   CQV_CANARY("abort harness end");
 }
+
+/* ---- carquet_writer_create / carquet_writer_create_file: failure paths -------------------------------
+ * fopen may fail, every strdup/calloc/realloc/arena_init may fail (also --malloc-may-fail).
+ * Bounded: the schema has <= CQV_NLEAF_MAX leaves.  CQV_CREATE_STRICT adds the (not property-level)
+ * obligation that a failed create leaves no file behind. */
+#ifdef CQV_NLEAF_MAX
+static char G_path_str[8], G_leaf_name[4];
+static carquet_schema_t *mk_schema(void) {
+  carquet_schema_t *sc = malloc(sizeof(*sc));
+  __CPROVER_assume(sc != NULL);
+  int32_t nl = nondet_i32();
+  __CPROVER_assume(0 <= nl && nl <= CQV_NLEAF_MAX);
+  sc->num_leaves = nl;
+  sc->num_elements = nl + 1;
+  /* constant-size arrays (the job is bounded anyway): &elements[idx].logical_type at a symbolic idx is a
+   * member pointer into an array of structs, affordable only when the array size is a small constant */
+  sc->elements = malloc((size_t)(CQV_NLEAF_MAX + 1) * sizeof(parquet_schema_element_t));
+  sc->leaf_indices = malloc((size_t)(CQV_NLEAF_MAX + 1) * sizeof(int32_t));
+  __CPROVER_assume(sc->elements != NULL && sc->leaf_indices != NULL);
+  G_leaf_name[3] = 0;
+  for (int32_t i = 0; i <= CQV_NLEAF_MAX; i++) {
+    if (i <= nl) {
+      sc->elements[i].name = G_leaf_name;
+      __CPROVER_assume(sc->leaf_indices[i] >= 0 && sc->leaf_indices[i] <= nl);
+    }
+  }
+  return sc;
+}
+static void free_schema(carquet_schema_t *sc) { free(sc->elements); free(sc->leaf_indices); free(sc); }
+static carquet_error_t *mk_err(void) {
+  if (nondet_bool()) return NULL;
+  carquet_error_t *e = malloc(sizeof(*e));
+  __CPROVER_assume(e != NULL);
+  e->code = CARQUET_OK;
+  return e;
+}
+static int err_filled(const carquet_error_t *e) {
+  return e->code != CARQUET_OK && G_msg_base == e->message && G_msg_nul < CARQUET_ERROR_MESSAGE_MAX && e->message[G_msg_nul] == 0;
+}
+static void check_created(carquet_writer_t *w, const carquet_schema_t *sc, _Bool owns) {
+  __CPROVER_assert(w->file == G_stream && G_stream_open && w->owns_file == owns, "created writer holds the open stream with the right ownership");
+  __CPROVER_assert(owns ? w->path != NULL : w->path == NULL, "path recorded iff path-based");
+  __CPROVER_assert(w->num_columns == sc->num_leaves && w->num_columns <= w->column_capacity, "one column per schema leaf");
+  __CPROVER_assert(w->num_columns == 0 || (w->columns != NULL && w->column_values_written != NULL), "schema arrays allocated");
+  __CPROVER_assert(!w->header_written && w->current_row_group == NULL && w->num_row_groups == 0 && w->row_groups == NULL, "fresh writer state");
+  __CPROVER_assert(G_arena == &w->arena && G_arena_live, "arena initialised");
+}
+
+void h_create(void) {
+  carquet_schema_t *sc = mk_schema();
+  carquet_writer_options_t opt;
+  carquet_error_t *error = mk_err();
+  G_path_str[7] = 0;
+  G_stream_open = 0; G_arena_live = 0; G_rg_live = 0;
+  G_fopen_calls = 0; G_fclose_calls = 0; G_remove_calls = 0; G_arena_destroy_calls = 0;
+  uint64_t req0 = G_bytes_requested;
+  carquet_writer_t *w = carquet_writer_create(G_path_str, sc, nondet_bool() ? &opt : NULL, error);
+  __CPROVER_assert(G_bytes_requested == req0, "create writes nothing");
+  if (w != NULL) {
+    check_created(w, sc, 1);
+    CQV_CANARY("create can succeed");
+    carquet_writer_abort(w);            /* releases everything (c18_abort_b) */
+  } else {
+    __CPROVER_assert(error == NULL || err_filled(error), "failure => error struct has a non-OK code and a NUL-terminated message");
+    __CPROVER_assert(!G_stream_open && G_fclose_calls == (G_fopen_calls == 1 && G_fopen_path == G_path_str && G_fclose_calls ? 1u : 0u),
+                     "failure => the stream is not left open, closed at most once");
+    __CPROVER_assert(!G_arena_live, "failure => arena destroyed if it was initialised");
+#ifdef CQV_CREATE_STRICT
+    __CPROVER_assert(G_fclose_calls == 0 || G_remove_calls == 1, "failure after a successful fopen => the created file is removed");
+#endif
+    if (G_fopen_calls == 1 && G_fclose_calls == 0) CQV_CANARY("fopen can fail");
+    if (G_fclose_calls == 1) CQV_CANARY("failure after fopen succeeded");
+    if (G_remove_calls == 1) CQV_CANARY("failed create removes the file");
+    if (G_fopen_calls == 0) CQV_CANARY("failure before fopen");
+  }
+  free_schema(sc);
+  free(error);
+  CQV_CANARY("create harness end");
+}
+
+void h_create_file(void) {
+  carquet_schema_t *sc = mk_schema();
+  carquet_writer_options_t opt;
+  carquet_error_t *error = mk_err();
+  G_stream_open = 1; G_arena_live = 0; G_rg_live = 0;
+  G_fopen_calls = 0; G_fclose_calls = 0; G_remove_calls = 0; G_arena_destroy_calls = 0;
+  uint64_t req0 = G_bytes_requested;
+  carquet_writer_t *w = carquet_writer_create_file(G_stream, sc, nondet_bool() ? &opt : NULL, error);
+  __CPROVER_assert(G_bytes_requested == req0, "create_file writes nothing");
+  __CPROVER_assert(G_stream_open && G_fclose_calls == 0 && G_remove_calls == 0 && G_fopen_calls == 0,
+                   "the caller's FILE is never closed, nothing is opened or removed");
+  if (w != NULL) {
+    check_created(w, sc, 0);
+    CQV_CANARY("create_file can succeed");
+    carquet_writer_abort(w);
+    __CPROVER_assert(G_stream_open && G_fclose_calls == 0 && G_remove_calls == 0, "abort leaves the caller's FILE alone");
+  } else {
+    __CPROVER_assert(error == NULL || err_filled(error), "failure => error struct has a non-OK code and a NUL-terminated message");
+    __CPROVER_assert(!G_arena_live, "failure => arena destroyed if it was initialised");
+    if (G_arena_destroy_calls == 1) CQV_CANARY("create_file can fail after arena init");
+    if (G_arena_destroy_calls == 0) CQV_CANARY("create_file can fail before arena init");
+  }
+  free_schema(sc);
+  free(error);
+  CQV_CANARY("create_file harness end");
+}
+#endif
